@@ -47,6 +47,13 @@ impl Number {
             }
         }
 
+        if let BigInt(x) = self {
+            // the same for the smallest bigint: negating it twice must not bring it back
+            if x.parse::<i128>().is_ok() && flip_integer(x).parse::<i128>().is_err() {
+                return None;
+            }
+        }
+
         Some(match self {
             Integer(x) => Integer(flip_integer(x)),
             BigInt(x) => BigInt(flip_integer(x)),
